@@ -66,6 +66,18 @@ struct Stats {
     refill_boundary: u64,
 }
 
+/// a source that returns at most k bytes per read call
+struct ShortReads<R> {
+    inner: R,
+    k: usize,
+}
+impl<R: std::io::Read> std::io::Read for ShortReads<R> {
+    fn read(&mut self, buf: &mut [u8]) -> std::io::Result<usize> {
+        let n = buf.len().min(self.k);
+        self.inner.read(&mut buf[..n])
+    }
+}
+
 fn run_case(t: &mut Trace, st: &mut Stats, case: u64, stream: &Stream, start: u32, reader: u64, origin: &str) {
     let lay = stream.layout();
     let msgs: Vec<Value> = lay.msgs.iter().map(|(o, l, seg)| json!({"off":o,"len":l,"rec":stream.msg(*seg).rec()})).collect();
@@ -123,13 +135,19 @@ fn run_case(t: &mut Trace, st: &mut Stats, case: u64, stream: &Stream, start: u3
     if with_log {
         st.with_logger += 1;
     }
-    let rname = format!("{}{}", ["slice", "cursor", "lowmark-512k", "lowmark-min"][reader as usize % 4], if with_log { "+log" } else { "" });
+    // every third case of the buffered front-ends reads from a source that hands out at most k bytes per call (pipe, socket, archive
+    // member): the messages found must not depend on it
+    let short_k: usize = if reader % 4 >= 2 && case % 3 == 0 { [6000usize, 1, 4097, 65536][(case / 3 % 4) as usize] } else { 0 };
+    let rname = format!("{}{}{}", ["slice", "cursor", "lowmark-512k", "lowmark-min"][reader as usize % 4], if with_log { "+log" } else { "" },
+        if short_k > 0 { format!("+reads<={}", short_k) } else { String::new() });
     t.ev(json!({"ev":"reset","case":case,"hdr":{"framing": if stream.serial {"serial"} else {"storage"},"start":start,"total":lay.bytes.len(),
         "msgs":msgs,"garb":lay.garb,"origin":origin,"reader":rname,"spurious_markers":spurious_markers(stream)}}));
     let limit = lay.msgs.len() + 5;
     let evs = match reader % 4 {
         0 => iterate(&lay.bytes[..], start, limit, with_log),
         1 => iterate(std::io::Cursor::new(lay.bytes.clone()), start, limit, with_log),
+        2 if short_k > 0 => iterate(LowMarkBufReader::new(ShortReads { inner: std::io::Cursor::new(lay.bytes.clone()), k: short_k }, 512 * 1024, DLT_MAX_STORAGE_MSG_SIZE), start, limit, with_log),
+        3 if short_k > 0 => iterate(LowMarkBufReader::new(ShortReads { inner: std::io::Cursor::new(lay.bytes.clone()), k: short_k }, DLT_MAX_STORAGE_MSG_SIZE + 4096, DLT_MAX_STORAGE_MSG_SIZE), start, limit, with_log),
         2 => iterate(LowMarkBufReader::new(std::io::Cursor::new(lay.bytes.clone()), 512 * 1024, DLT_MAX_STORAGE_MSG_SIZE), start, limit, with_log),
         _ => iterate(LowMarkBufReader::new(std::io::Cursor::new(lay.bytes.clone()), DLT_MAX_STORAGE_MSG_SIZE + 4096, DLT_MAX_STORAGE_MSG_SIZE), start, limit, with_log),
     };
